@@ -581,3 +581,36 @@ Proof.
   split; [apply abs_dom_remove_above; exact HI|].
   split; [apply abs_dom_min_max; exact HI | apply abs_dom_sorted].
 Qed.
+
+(* ------------------------------------------------------------------------------------------ *)
+(* total_size: the termination measure; a reported event means some value was removed *)
+
+Lemma filter_length_le_Z : forall (f : Z -> bool) l, (length (filter f l) <= length l)%nat.
+Proof.
+  intros f. induction l as [|x r IH]; [apply le_n|]. cbn [filter].
+  destruct (f x); cbn [length]; lia.
+Qed.
+
+Lemma filter_length_lt : forall (f : Z -> bool) l, filter f l <> l -> (length (filter f l) < length l)%nat.
+Proof.
+  intros f. induction l as [|x r IH]; intros H; [exfalso; apply H; reflexivity|]. cbn [filter] in *.
+  destruct (f x).
+  - cbn [length]. apply -> Nat.succ_lt_mono. apply IH. intros E. apply H. rewrite E. reflexivity.
+  - cbn [length]. pose proof (filter_length_le_Z f r). lia.
+Qed.
+
+Lemma total_size_supd : forall s v d, (v < length s)%nat ->
+  (total_size (supd s v d) + length (sget s v) = total_size s + length d)%nat.
+Proof.
+  unfold sget. induction s as [|x r IH]; intros v d H; [cbn in H; lia|].
+  destruct v; cbn [supd total_size nth]; [lia|].
+  cbn [length] in H. specialize (IH v d ltac:(lia)). lia.
+Qed.
+
+Lemma total_size_supd_filter : forall s v (f : Z -> bool), (v < length s)%nat ->
+  filter f (sget s v) <> sget s v ->
+  (total_size (supd s v (filter f (sget s v))) < total_size s)%nat.
+Proof.
+  intros s v f Hv Hne. pose proof (total_size_supd s v (filter f (sget s v)) Hv).
+  pose proof (filter_length_lt f _ Hne). lia.
+Qed.
